@@ -462,6 +462,11 @@ pub fn oracle_c15_events(scn: &E2Scn, d: &D2, stats: &mut Stats) -> Vec<Violatio
 // generators
 
 pub fn gen_events(rng: &mut Rng, faults: bool) -> E2Scn {
+    gen_events_opt(rng, faults, false)
+}
+
+/// `stalls`: slow-node faults (slow error handler, slow filter); not for checks with exact timing bounds
+pub fn gen_events_opt(rng: &mut Rng, faults: bool, stalls: bool) -> E2Scn {
     let throttle = *rng.pick(&[0u64, 1, 10, 50, 50]);
     let n_prod = rng.range(1, 4) as usize;
     let big = rng.chance(1, 5);
@@ -530,6 +535,13 @@ pub fn gen_events(rng: &mut Rng, faults: bool) -> E2Scn {
             verdicts.push((SIGNAL_ID_BASE + *s as u32, 1));
         }
     }
+    let mut filter_slow = Vec::new();
+    if stalls && rng.chance(1, 4) {
+        for _ in 0..rng.range(1, 2) {
+            filter_slow.push((10 + rng.below(n_events) as u32, *rng.pick(&[1u64, 20, 120])));
+        }
+    }
+    let slow_ms = if stalls && faults && rng.chance(1, 3) { *rng.pick(&[10u64, 60, 300]) } else { 0 };
     let err_plan = if faults && rng.chance(1, 6) {
         match rng.below(3) {
             0 => ErrPlan { elevate_at: Some(rng.below(3) as u32), ..Default::default() },
@@ -539,7 +551,7 @@ pub fn gen_events(rng: &mut Rng, faults: bool) -> E2Scn {
     } else {
         ErrPlan::default()
     };
-    E2Scn {
+    let s = E2Scn {
         family: "events".into(),
         throttle,
         event_cap: *rng.pick(&[1u32, 2, 4, 4096, 4096]),
@@ -551,8 +563,12 @@ pub fn gen_events(rng: &mut Rng, faults: bool) -> E2Scn {
         err_plan,
         init_paths: if fs { vec![(0, true)] } else { vec![] },
         probe: true,
+        filter_slow,
         ..Default::default()
-    }
+    };
+    let mut s = s;
+    s.err_plan.slow_ms = slow_ms;
+    s
 }
 
 /// dedicated arrival patterns for the debounce window
@@ -652,6 +668,8 @@ pub fn shrink_e2(s: &E2Scn) -> Vec<E2Scn> {
             }
         };
     }
+    drop_each!(filter_slow);
+    drop_each!(watch_slow);
     drop_each!(verdicts);
     drop_each!(cfg_steps);
     drop_each!(watch_faults);
@@ -663,6 +681,14 @@ pub fn shrink_e2(s: &E2Scn) -> Vec<E2Scn> {
     if s.err_plan != ErrPlan::default() {
         let mut c = s.clone();
         c.err_plan = ErrPlan::default();
+        out.push(c);
+    }
+    if s.err_plan.slow_ms > 0 {
+        let mut c = s.clone();
+        c.err_plan.slow_ms = 0;
+        out.push(c);
+        let mut c = s.clone();
+        c.err_plan.slow_ms = s.err_plan.slow_ms / 2;
         out.push(c);
     }
     if s.handler_async {
@@ -790,6 +816,15 @@ pub fn e2_stats(scn: &E2Scn, d: &D2, stats: &mut Stats) {
     if scn.handler_async && scn.max_handler() > 0 {
         stats.hit("fault:stalled-action-handler");
     }
+    if scn.err_plan.slow_ms > 0 && !d.errs.is_empty() {
+        stats.hit("fault:slow-error-handler");
+    }
+    if !scn.filter_slow.is_empty() {
+        stats.hit("fault:slow-filter");
+    }
+    if !scn.watch_slow.is_empty() {
+        stats.hit("fault:slow-watcher-backend");
+    }
     if d.err_actions.iter().any(|a| a.1 == "replace") {
         stats.hit("fault:handler-replaces-itself");
     }
@@ -877,7 +912,7 @@ e2_check!(
     "C01",
     60_000,
     10_000_000,
-    |rng: &mut Rng, idx: u64| if idx % 4 == 3 { gen_debounce(rng) } else { gen_events(rng, idx % 2 == 1) },
+    |rng: &mut Rng, idx: u64| if idx % 4 == 3 { gen_debounce(rng) } else { gen_events_opt(rng, idx % 2 == 1, true) },
     |scn: &E2Scn, d: &D2, _out: &RunOut, stats: &mut Stats| oracle_c01(scn, d, stats),
     vec![
         "probe:urgent-event",
@@ -917,8 +952,8 @@ e2_check!(
 pub struct W2 {
     /// (t, seq, w, what, path, rec, ok)
     pub calls: Vec<(u64, u32, u32, &'static str, u8, bool, bool)>,
-    /// (t, seq, w, poll, ok)
-    pub created: Vec<(u64, u32, u32, bool, bool)>,
+    /// (t, seq, w, poll_ms (-1 native), ok)
+    pub created: Vec<(u64, u32, u32, i64, bool)>,
     pub dropped: Vec<(u64, u32, u32)>,
     /// (seq, change text)
     pub changes: Vec<(u64, u32, String)>,
@@ -932,7 +967,7 @@ pub fn digest_w(out: &RunOut) -> W2 {
         match &r.ev {
             Ev::Note { what: "scenario-over", .. } => break,
             Ev::Watcher { w: id, what, path, rec, ok } => w.calls.push((r.t, r.seq, *id, what, *path, *rec, *ok)),
-            Ev::WatcherNew { w: id, poll, ok } => w.created.push((r.t, r.seq, *id, *poll, *ok)),
+            Ev::WatcherNew { w: id, poll_ms, ok } => w.created.push((r.t, r.seq, *id, *poll_ms, *ok)),
             Ev::WatcherDrop { w: id } => w.dropped.push((r.t, r.seq, *id)),
             Ev::CfgChange { what, .. } => w.changes.push((r.t, r.seq, what.clone())),
             Ev::Note { what: what @ ("action-handler-generation" | "error-handler-generation"), a, .. } => w.generations.push((r.seq, what, *a)),
@@ -944,9 +979,9 @@ pub fn digest_w(out: &RunOut) -> W2 {
 }
 
 /// final configured (pathset, poll?) after replaying the scenario's changes in the order they were applied
-fn final_config(scn: &E2Scn, out: &RunOut, qseq: u32) -> (BTreeMap<u8, bool>, bool) {
+fn final_config(scn: &E2Scn, out: &RunOut, qseq: u32) -> (BTreeMap<u8, bool>, i64) {
     let mut paths: BTreeMap<u8, bool> = scn.init_paths.iter().copied().collect();
-    let mut poll = scn.init_poll.is_some();
+    let mut poll: i64 = scn.init_poll.map(|p| p as i64).unwrap_or(-1);
     // CfgChange records carry the Debug text of the change; re-derive from the scenario by matching text
     let all: Vec<&Change> = scn.all_changes();
     for r in &out.hist {
@@ -957,7 +992,7 @@ fn final_config(scn: &E2Scn, out: &RunOut, qseq: u32) -> (BTreeMap<u8, bool>, bo
             if let Some(c) = all.iter().find(|c| format!("{c:?}") == *what) {
                 match c {
                     Change::Pathset(ps) => paths = ps.iter().copied().collect(),
-                    Change::FileWatcher(k) => poll = k.is_some(),
+                    Change::FileWatcher(k) => poll = k.map(|p| p as i64).unwrap_or(-1),
                     _ => {}
                 }
             }
@@ -967,6 +1002,14 @@ fn final_config(scn: &E2Scn, out: &RunOut, qseq: u32) -> (BTreeMap<u8, bool>, bo
         }
     }
     (paths, poll)
+}
+
+fn kind_name(poll_ms: i64) -> String {
+    if poll_ms < 0 {
+        "Native".into()
+    } else {
+        format!("Poll({poll_ms}ms)")
+    }
 }
 
 pub fn oracle_c13(scn: &E2Scn, d: &D2, out: &RunOut, stats: &mut Stats) -> Vec<Violation> {
@@ -996,7 +1039,7 @@ pub fn oracle_c13(scn: &E2Scn, d: &D2, out: &RunOut, stats: &mut Stats) -> Vec<V
         return vs;
     }
     // live watchers at quiescence
-    let live: Vec<&(u64, u32, u32, bool, bool)> = w.created.iter().filter(|c| c.4 && c.1 < qseq && !w.dropped.iter().any(|dr| dr.2 == c.2 && dr.1 < qseq)).collect();
+    let live: Vec<&(u64, u32, u32, i64, bool)> = w.created.iter().filter(|c| c.4 && c.1 < qseq && !w.dropped.iter().any(|dr| dr.2 == c.2 && dr.1 < qseq)).collect();
     if live.len() > 1 {
         vs.push(Violation::new("two-live-watchers", "", format!("{} watchers alive at quiescence: {:?}", live.len(), live.iter().map(|l| l.2).collect::<Vec<_>>())));
     }
@@ -1018,7 +1061,7 @@ pub fn oracle_c13(scn: &E2Scn, d: &D2, out: &RunOut, stats: &mut Stats) -> Vec<V
         vs.push(Violation::new(
             "wrong-watcher-kind",
             "",
-            format!("configured watcher kind is {} but the live watcher {} is {}", if want_poll { "Poll" } else { "Native" }, lw.2, if lw.3 { "Poll" } else { "Native" }),
+            format!("configured watcher kind is {} but the live watcher {} is {}", kind_name(want_poll), lw.2, kind_name(lw.3)),
         ));
     }
     // registered set of the live watcher, from its successful calls
@@ -1034,7 +1077,7 @@ pub fn oracle_c13(scn: &E2Scn, d: &D2, out: &RunOut, stats: &mut Stats) -> Vec<V
             }
         }
     }
-    let kind_switched = w.created.iter().filter(|c| c.4).map(|c| c.3).collect::<BTreeSet<_>>().len() > 1;
+    let kind_switched = w.created.iter().filter(|c| c.4).map(|c| c.3 >= 0).collect::<BTreeSet<_>>().len() > 1;
     let ctx = if kind_switched { "after-kind-switch" } else if w.mid_apply > 0 { "change-mid-apply" } else { "" };
     for (p, rec) in &want {
         match reg.get(p) {
@@ -1185,12 +1228,19 @@ pub fn gen_fswatch(rng: &mut Rng, faults: bool) -> E2Scn {
         s.handler_durs = vec![*rng.pick(&[0u64, 5, 30])];
     }
     s.hash_seed = rng.below(8);
+    if rng.chance(1, 4) {
+        // slow watcher backend: the fs worker is stalled in the middle of an apply
+        s.watch_slow.push((rng.below(6) as u32, *rng.pick(&[5u64, 50, 300])));
+    }
+    if faults && rng.chance(1, 4) {
+        s.err_plan.slow_ms = *rng.pick(&[10u64, 60, 300]);
+    }
     s
 }
 
 use crate::e2::CfgStep;
 
-/// bounded-exhaustive: every sequence of <= 2 changes (quick) over 27 path sets + 2 kinds + 3 noise changes, from 3 initial configs
+/// bounded-exhaustive: every sequence of <= 2 changes (quick) over 27 path sets + 3 watcher kinds + 3 noise changes, from 3 initial configs
 pub fn exh_changes() -> Vec<Change> {
     let mut v = Vec::new();
     for a in 0..3u8 {
@@ -1210,6 +1260,7 @@ pub fn exh_changes() -> Vec<Change> {
     }
     v.push(Change::FileWatcher(None));
     v.push(Change::FileWatcher(Some(100)));
+    v.push(Change::FileWatcher(Some(10)));
     v.push(Change::KeyboardOff);
     v.push(Change::Throttle(10));
     v.push(Change::ReplaceActionHandler);
@@ -1293,20 +1344,25 @@ e2_check!(
     10_000_000,
     |rng: &mut Rng, idx: u64| match idx % 4 {
         0 | 1 => {
-            let mut s = gen_events(rng, true);
-            if rng.chance(1, 2) && s.err_plan == ErrPlan::default() {
+            let mut s = gen_events_opt(rng, true, true);
+            if rng.chance(1, 2) && s.err_plan.elevate_at.is_none() && s.err_plan.critical_at.is_none() && s.err_plan.replace_at.is_none() {
+                let slow = s.err_plan.slow_ms;
                 s.err_plan = match rng.below(3) {
                     0 => ErrPlan { elevate_at: Some(rng.below(3) as u32), ..Default::default() },
                     1 => ErrPlan { critical_at: Some(rng.below(3) as u32), ..Default::default() },
                     _ => ErrPlan { replace_at: Some(rng.below(2) as u32), ..Default::default() },
                 };
+                s.err_plan.slow_ms = slow;
             }
             s
         }
         2 => {
             // error burst larger than the error queue: many filter errors at one instant, error queue of 1 or 2
-            let mut s = gen_events(rng, true);
+            let mut s = gen_events_opt(rng, true, true);
             s.error_cap = *rng.pick(&[1u32, 2]);
+            if rng.chance(1, 2) {
+                s.err_plan.slow_ms = *rng.pick(&[60u64, 300, 700]);
+            }
             let ids: Vec<u32> = s.producers.iter().flatten().filter_map(|p| if let PKind::Send { id, prio, empty: false } = p.kind { if prio < 3 { Some(id) } else { None } } else { None }).collect();
             s.verdicts.retain(|v| !ids.contains(&v.0));
             for id in ids {
